@@ -55,21 +55,29 @@ class ZOcfHarness(_Base):
     """SystemZPreOCF: ranks (any order, lazy / forced / all at once), acceptance of the base,
     acceptance verdict of a query vs. the System Z definition, facts."""
 
-    def __init__(self, N, M, K=0, extended=None, order=None, force=False, label=None, mode="ranks", which=1):
+    def __init__(self, N, M, K=0, extended=None, order=None, force=False, label=None, mode="ranks", which=1, fact_strings=None):
         ops.setup()
         self.N, self.M, self.K, self.extended = N, M, K, extended
         self.sb = ops.SymBase(N, M, 1)
-        self.facts = [Z.BitVec("F%d" % i, CTX.W) for i in range(K)]
-        self.vars = self.sb.vars + self.facts
+        # facts: K symbolic formulas (FNode objects), or concrete strings in project syntax given
+        # as (text, formula tree) pairs - the tree is the independent reading of the text
+        self.fact_strings = fact_strings
+        if fact_strings:
+            K = self.K = len(fact_strings)
+            self.facts = [concretise.tree_table(t) for _, t in fact_strings]
+            self.vars = list(self.sb.vars)
+        else:
+            self.facts = [Z.BitVec("F%d" % i, CTX.W) for i in range(K)]
+            self.vars = self.sb.vars + self.facts
         A, B, QA, QB = self.sb.tables()
         self.QA, self.QB = QA[0], QB[0]
         self.ext_eff = (extended if extended is not None else (K > 0))
-        self.spec = specs.BaseSpec(A + [~f for f in self.facts], B + [0] * K)
+        self.spec = specs.BaseSpec(A + [tt.t_not(f) for f in self.facts], B + [0] * K)
         self.order = order if order is not None else list(range(CTX.W))[:3]
         self.force = force
         self.mode, self.which = mode, which     # ranks | accept-base (conditional `which`) | query
-        self.label = label or "SystemZPreOCF[%s] N=%d M=%d facts=%d extended=%s first-ranked=%s force=%s" % (
-            mode if mode != "accept-base" else "accept-base c%d" % which, N, M, K, extended, self.order, force)
+        self.label = label or "SystemZPreOCF[%s] N=%d M=%d facts=%s extended=%s first-ranked=%s force=%s" % (
+            mode if mode != "accept-base" else "accept-base c%d" % which, N, M, K if not fact_strings else [t for t, _ in fact_strings], extended, self.order, force)
         self.reset()
 
     def accepted(self):
@@ -90,7 +98,7 @@ class ZOcfHarness(_Base):
             c.index = pos + 1
             conds[pos + 1] = c
         bb = R["BeliefBase"](list(CTX.atom_names), conds, "sym")
-        facts = [tt.Leaf("F%d" % i, self.facts[i]) for i in range(self.K)]
+        facts = [tt.Leaf("F%d" % i, self.facts[i]) for i in range(self.K)] if not self.fact_strings else [t for t, _ in self.fact_strings]
         try:
             try:
                 ocf = po.PreOCF.init_system_z(bb, facts=facts or None, extended=self.extended)
@@ -175,10 +183,10 @@ class ZOcfHarness(_Base):
             c = concretise.formula_tree(self.sb.side("B", pos), lv)
             a = concretise.formula_tree(self.sb.side("A", pos), lv)
             base.append([pos + 1, c, a, "(%s|%s)" % (concretise.tree_to_text(c), concretise.tree_to_text(a))])
-        facts = [concretise.table_to_tree(vars_["F%d" % i]) for i in range(self.K)]
+        facts = [concretise.table_to_tree(vars_["F%d" % i]) for i in range(self.K)] if not self.fact_strings else None
         qc = concretise.formula_tree(self.sb.side("QB", 0), lv)
         qa = concretise.formula_tree(self.sb.side("QA", 0), lv)
-        job = {"atoms": list(CTX.atom_names), "steps": [{"op": "exec", "src": _ZSRC, "base": base, "facts": facts, "extended": self.extended,
+        job = {"atoms": list(CTX.atom_names), "steps": [{"op": "exec", "src": _ZSRC, "base": base, "facts": facts, "fact_strings": [t for t, _ in (self.fact_strings or [])], "extended": self.extended,
                                                           "order": [world_str(w, self.N) for w in self.order], "force": self.force, "q": [qc, qa],
                                                           "mode": self.mode, "which": self.which}]}
         out = concretise.run_real(job)
@@ -216,7 +224,7 @@ from inference.conditional import Conditional
 from inference.preocf import PreOCF
 cd = conds(st["base"])
 bb = BeliefBase(job["atoms"], cd, "replay")
-facts = [form(f) for f in st["facts"]]
+facts = [form(f) for f in st["facts"]] if st["facts"] is not None else list(st["fact_strings"])
 try:
     ocf = PreOCF.init_system_z(bb, facts=facts or None, extended=st["extended"])
     refused = None
